@@ -207,7 +207,8 @@ class Radio:
                     elif tag[0] == "items" and len(tag) > 2:
                         out.append(norm(tag[2][j]).key())
                     else:
-                        out.append(Sym(("byteof", repr(tag)[:80], j), "int").key())
+                        from ..interp_stmt import byte_name
+                        out.append(Sym(byte_name(tag, j), "int").key())
             return tuple(out)
         return None
 
